@@ -9,6 +9,7 @@ import (
 	"errors"
 	"fmt"
 	"iter"
+	"strings"
 	"time"
 
 	"github.com/jub0bs/cors/cfgerrors"
@@ -54,7 +55,7 @@ func (c19) FaultKinds() []string {
 	return []string{"F8_cancel_range_break", "F8_cancel_callback_false", "F8_cancel_pull_stop"}
 }
 func (c19) Probes() []string {
-	return []string{"cancel_at_first", "cancel_at_last", "cancel_between_siblings_of_nested_join", "join_of_one", "real_cfg_error_tree", "no_cancel_full_traversal"}
+	return []string{"cancel_at_first", "cancel_at_last", "cancel_between_siblings_of_nested_join", "join_of_one", "real_cfg_error_tree", "no_cancel_full_traversal", "real_cfg_error_count_checked"}
 }
 
 func genTree(r *R, depth int, next *int) TNode {
@@ -278,6 +279,32 @@ func (c19) Exec(plan any, c *Ctx) *Violation {
 	for _, e := range want {
 		if e == nil {
 			return &Violation{Class: "nil-leaf", Detail: "flattened tree contains nil"}
+		}
+	}
+	// second sentence of the property, for errors returned by the library: the
+	// number of yielded errors equals the number of individual violations the
+	// error REPORTS. Independent count: errors.Join renders one line per leaf and
+	// every cfgerrors message is a single line starting with "cors: ".
+	if p.Tree == nil {
+		var yielded []error
+		for e := range cfgerrors.All(err) {
+			yielded = append(yielded, e)
+		}
+		lines := strings.Split(err.Error(), "\n")
+		c.hit("real_cfg_error_count_checked")
+		if len(lines) != len(yielded) {
+			return &Violation{Class: "count-mismatch", Key: "lines", Detail: fmt.Sprintf("cfg=%s: the error reports %d violations (lines of Error()) but All yields %d errors: %q", plantAll(*p.Cfg, p.Planted), len(lines), len(yielded), err.Error())}
+		}
+		for i, e := range yielded {
+			if e == nil {
+				return &Violation{Class: "nil-leaf", Key: "yielded", Detail: "All yielded a nil error"}
+			}
+			if _, isJoin := e.(interface{ Unwrap() []error }); isJoin {
+				return &Violation{Class: "non-leaf-yielded", Key: "yielded", Detail: fmt.Sprintf("All yielded a join node at position %d: %q", i, e.Error())}
+			}
+			if e.Error() != lines[i] {
+				return &Violation{Class: "count-mismatch", Key: "order", Detail: fmt.Sprintf("yielded error %d is %q but line %d of the report is %q", i, e.Error(), i, lines[i])}
+			}
 		}
 	}
 	return nil
